@@ -1,0 +1,97 @@
+//go:build verif
+
+// Verification hook (build tag "verif"): a recording fake of the netlink operations so that
+// server.New and the client automaton run without a kernel interface.
+package libif
+
+import (
+	"fmt"
+	"net"
+	"sync"
+	"time"
+)
+
+type Ifconfig struct {
+	Interface     *net.Interface
+	Router        net.IP
+	IP            net.IP
+	MTU           int
+	DNS           []net.IP
+	DomainName    string
+	Netmask       net.IPMask
+	LeaseDuration time.Duration
+}
+
+// Op is one recorded interface operation.
+type Op struct {
+	At   time.Time
+	Name string    // "down", "up", "unconfigure", "setiface"
+	Conf *Ifconfig // copy of the argument of setiface
+}
+
+var (
+	mu    sync.Mutex
+	addrs = map[int]net.IP{}
+	ops   = map[int][]Op{}
+	// setIfaceErrs[ifindex] is consumed front to back by SetIface; a nil entry means success.
+	setIfaceErrs = map[int][]error{}
+)
+
+// SetFakeAddr sets what InterfaceAddr reports for the interface (nil: no address).
+func SetFakeAddr(iface *net.Interface, ip net.IP) {
+	mu.Lock()
+	defer mu.Unlock()
+	if ip == nil {
+		delete(addrs, iface.Index)
+	} else {
+		addrs[iface.Index] = ip
+	}
+}
+
+// PlanSetIface queues the results of the next SetIface calls.
+func PlanSetIface(iface *net.Interface, errs ...error) {
+	mu.Lock()
+	defer mu.Unlock()
+	setIfaceErrs[iface.Index] = append([]error(nil), errs...)
+}
+
+// TakeOps returns and clears the recorded operations of the interface.
+func TakeOps(iface *net.Interface) []Op {
+	mu.Lock()
+	defer mu.Unlock()
+	r := ops[iface.Index]
+	delete(ops, iface.Index)
+	return r
+}
+
+func rec(iface *net.Interface, name string, c *Ifconfig) {
+	mu.Lock()
+	defer mu.Unlock()
+	ops[iface.Index] = append(ops[iface.Index], Op{At: time.Now(), Name: name, Conf: c})
+}
+
+func Down(iface *net.Interface) error        { rec(iface, "down", nil); return nil }
+func Up(iface *net.Interface) error          { rec(iface, "up", nil); return nil }
+func Unconfigure(iface *net.Interface) error { rec(iface, "unconfigure", nil); return nil }
+
+func InterfaceAddr(iface *net.Interface) (net.IP, error) {
+	mu.Lock()
+	defer mu.Unlock()
+	if ip, ok := addrs[iface.Index]; ok {
+		return ip, nil
+	}
+	return nil, fmt.Errorf("no ipv4 addr found on interface")
+}
+
+func SetIface(c Ifconfig) error {
+	cc := c
+	rec(c.Interface, "setiface", &cc)
+	mu.Lock()
+	defer mu.Unlock()
+	q := setIfaceErrs[c.Interface.Index]
+	if len(q) == 0 {
+		return nil
+	}
+	setIfaceErrs[c.Interface.Index] = q[1:]
+	return q[0]
+}
